@@ -10,7 +10,7 @@
 EXTENDS MutReg, Json
 
 C(name, L, N, fb, kids, rebuild) ==
-  [name |-> name, L |-> L, N |-> N, fb |-> fb, kids |-> kids, rebuild |-> rebuild, container |-> FALSE]
+  [name |-> name, L |-> L, N |-> N, fb |-> fb, kids |-> kids, rebuild |-> rebuild, container |-> FALSE, wrapper |-> name = "Wrap"]
 F(f, to)      == [f |-> f, to |-> to]
 K(a, c, pre)  == [a |-> a, c |-> c, pre |-> pre]
 
@@ -43,7 +43,12 @@ SubNet == {<<"latent", "add_latent_node">>, <<"latent", "remove_latent_node">>, 
            <<"node", "remove_latent_node">>, <<"node", "add_node">>, <<"node", "remove_node">>}
 AssignNet == {[a |-> "head_net", c |-> "Mlp"]}
 
-(* M2: every transition of the reachable graph once, as JSON *)
+(* M2: every transition of the reachable graph once, as JSON.  Of the sample transitions (they change nothing) one draw
+   per (state, module, new_layer_prob) is kept: the j-th name of positive weight is what the scripted rng returns anyway *)
+Pick(t, p, pl) == LET S == {m \in RegAll(trees[t], p) : Weights(trees[t], p, pl)[m][1] > 0}
+                  IN  IF S = {} THEN None ELSE CHOOSE m \in S : TRUE
+SampleOne == steps < MaxSteps /\ \E t \in LiveTrees : \E p \in Nodes(t), pl \in 0..2 : Sample(t, p, pl, Pick(t, p, pl))
+SpecDump  == Init /\ [][NextCore \/ SampleOne]_vars
 NodeObs(T, p) == [p |-> p, cls |-> T[p].cls, L |-> (Reg(T, p, "L")), N |-> (Reg(T, p, "N")), last |-> T[p].last]
 TreeObs(T) == [live |-> Live(T), nodes |-> ({NodeObs(T, p) : p \in DOMAIN T})]
 Obs == <<TreeObs(trees[1]), TreeObs(trees[2])>>
